@@ -232,7 +232,7 @@ func nodeIDs(ns []store.Node) []string {
 
 func (c *storeComp) Exec(t []string) (extra []string, out string, eff bool) {
 	if c.poisoned {
-		return nil, "noop", false
+		return []string{"#skipped"}, "noop", false
 	}
 	extra, out, eff = c.exec(t)
 	if c.poisoned {
